@@ -753,7 +753,14 @@ fn one_program(ctx: &Ctx, prog: Option<&Prog>, text: &str, goals: &[(usize, Opti
                         out.fail(
                             &format!("{} solver: Ambiguous on a closed goal the rules decide ({} for this {})", name, TRAITS[*tr].0, ctor),
                             &input,
-                            &format!("builtin_{}_{}_ambiguous", trn, ctor),
+                            // F36: several derivations of a closed goal whose type mentions a lifetime give answers
+                            // that differ only in region constraints; make_solution does not merge them (its FIXME,
+                            // rust-lang/rust#21974) and answers Ambiguous
+                            &(if name.starts_with("slg") && input.rsplit(";; goal").next().map_or(false, |g| g.contains('\'')) {
+                                "slg_closed_goal_ambiguous_by_region_constraints".to_string()
+                            } else {
+                                format!("builtin_{}_{}_ambiguous", trn, ctor)
+                            }),
                         )
                     }
                 }
